@@ -82,5 +82,12 @@ def render_table(entries: list[tuple], noise_seed: int | None = None) -> str:
             out.append(f"{e[0].hex().upper() if i % 2 else e[0].hex()}{':%d' % e[2] if len(e) > 2 and e[2] else ''}={e[1]}\n")
         if rng.random() < 0.5:
             out.append(rng.choice(NOISE_LINES) + "\n")
-        return "".join(out)
-    return "".join(f"{e[0].hex().upper() if i % 2 else e[0].hex()}{':%d' % e[2] if len(e) > 2 and e[2] else ''}={e[1]}\n" for i, e in enumerate(entries))
+        return _maybe_unterminated("".join(out))
+    return _maybe_unterminated("".join(f"{e[0].hex().upper() if i % 2 else e[0].hex()}{':%d' % e[2] if len(e) > 2 and e[2] else ''}={e[1]}\n" for i, e in enumerate(entries)))
+
+
+def _maybe_unterminated(text: str) -> str:
+    """A third of the table files (chosen by their content) end without a line end after the last entry, as editors on some systems save them."""
+    import zlib
+
+    return text[:-1] if text.endswith("\n") and zlib.crc32(text.encode("utf-8")) % 3 == 0 else text
